@@ -472,6 +472,9 @@ func (j *hvsJob) explore() {
 					if len(fs) > 0 || visited[hvsKey{key, or}] {
 						continue
 					}
+					if depth+1 >= hvsDepth {
+						c = nil // leaves are judged, never expanded: do not retain the object
+					}
 					ex.succs = append(ex.succs, hvsSucc{int16(ti), c, key, or, ob})
 				}
 				exps[bi] = ex
